@@ -247,6 +247,69 @@ theorem measure_xsend (cfg : Cfg) (s s' : State) (c g u n fee : Nat) (g' : Nat) 
           simp only [chainInFlight, poolValue, tokensValue, List.map_cons, List.map_nil, List.sum_cons, List.sum_nil]
           split <;> simp_all <;> omega
 
+theorem held_valueIn (g' g u n : Nat) : (heldObs g').flowDelta (valueIn g (U u) n) = 0 := by
+  simp only [valueIn]; held_done
+
+theorem held_feeToBridgeDenom (g' : Nat) (k : Kind) (g c u n : Nat) (hc : c < 3) :
+    (heldObs g').flowDelta (feeToBridgeDenom k g c (U u) n) = 0 := by
+  cases k <;> simp only [feeToBridgeDenom]
+  · rfl
+  · exact held_convertDenom g' _ g u n .base (.chain c) (by intro c h; cases h) (by intro c' h; cases h; exact hc)
+  · exact held_convertDenom g' _ g u n .base (.chain c) (by intro c h; cases h) (by intro c' h; cases h; exact hc)
+
+theorem measure_vsend (cfg : Cfg) (s s' : State) (c g u n fee : Nat) (g' : Nat) (hc : c < 3)
+    (h : stepCore cfg s (.vsend c g u n fee) = .ok s') : measure s' g' = measure s g' := by
+  simp only [stepCore] at h; exc
+  split at h
+  · cases h
+  · split at h
+    · cases h
+    · cases hk : bridged cfg g c with
+      | none => simp [hk] at h
+      | some k =>
+        simp only [hk] at h
+        cases hr : run s (valueIn g (U u) (n + fee) ++ baseCoinToBridgeToken k g c (U u) (n + fee)) with
+        | error e => simp [hr] at h
+        | ok s1 =>
+          simp only [hr, Except.ok.injEq] at h; subst h
+          rw [measure_run_finish s s1 _ c _ _ _ g' hc hr, flowDelta_append, held_valueIn, held_withdraw g' k g c u _ hc]
+          simp only [chainInFlight, poolValue, tokensValue, List.map_cons, List.map_nil, List.sum_cons, List.sum_nil]
+          split <;> simp_all <;> omega
+
+theorem measure_xincfee (cfg : Cfg) (s s' : State) (c id u g n : Nat) (g' : Nat) (hc : c < 3)
+    (h : stepCore cfg s (.xincfee c id u g n) = .ok s') : measure s' g' = measure s g' := by
+  simp only [stepCore] at h; exc
+  split at h
+  · cases h
+  · cases hkp : cfg.kind g with
+    | none => simp [hkp] at h
+    | some kp =>
+      simp only [hkp] at h
+      cases he : extract (fun t : PoolTx => t.id == id) (s.chains c).pool with
+      | none => simp [he] at h
+      | some pr =>
+        obtain ⟨tx, rest⟩ := pr
+        simp only [he] at h
+        have hsum := extract_sum _ (fun t : PoolTx => if t.g = g' then t.amount + t.fee else 0) _ _ _ he
+        cases hk : bridged cfg g c with
+        | none => simp [hk] at h
+        | some k =>
+          simp only [hk] at h
+          split at h
+          · cases h
+          · rename_i hg
+            cases hr : run s (precompileTokenIn kp g (U u) n ++ (feeToBridgeDenom k g c (U u) n ++
+                addBridgeFee k g c (U u) n)) with
+            | error e => simp [hr] at h
+            | ok s1 =>
+              simp [hr] at h; subst h
+              rw [measure_run_finish s s1 _ c _ _ _ g' hc hr, flowDelta_append, flowDelta_append,
+                held_precompileTokenIn, held_feeToBridgeDenom g' k g c u n hc, held_addBridgeFee g' k g c u _ hc]
+              simp only [chainInFlight, poolValue, tokensValue, List.map_cons, List.map_nil, List.sum_cons,
+                List.sum_nil] at hsum ⊢
+              have hg' : tx.g = g := by simpa using hg
+              split <;> simp_all <;> omega
+
 theorem measure_cancel (cfg : Cfg) (s s' : State) (c id u : Nat) (g' : Nat) (hc : c < 3)
     (h : stepCore cfg s (.cancel c id u) = .ok s') : measure s' g' = measure s g' := by
   simp only [stepCore] at h; exc
@@ -607,6 +670,8 @@ theorem step_measure (cfg : Cfg) (s s' : State) (op : Op) (g' : Nat) (h : step c
       · exact measure_deposit cfg s s' _ _ _ _ _ g' hc h
       · exact measure_send cfg s s' _ _ _ _ _ g' hc h
       · exact measure_xsend cfg s s' _ _ _ _ _ g' hc h
+      · exact measure_vsend cfg s s' _ _ _ _ _ g' hc h
+      · exact measure_xincfee cfg s s' _ _ _ _ _ g' hc h
       · exact measure_cancel cfg s s' _ _ _ g' hc h
       · exact measure_incfee cfg s s' _ _ _ _ _ g' hc h
       · exact measure_batch cfg s s' _ _ _ _ _ g' hc h
